@@ -60,8 +60,8 @@ class Check(PropertyCheck):
                   "that the reply is solicited). `history_preserves` is a theorem about the C27 layer model (tied to the "
                   "code by the C27 check) with acts = []: runs in which addons modify flows are outside C26's statement. "
                   "Delivery is proved for plain ASCII labels only (labels with xn-- or non-ASCII bytes depend on the idna "
-                  "parameter; the oracle's `deliverable` is narrower still). The compressing encoder is covered at name level "
-                  "only (`reference_compressor_read`); there is no theorem about a whole-message compressing encoder "
+                  "parameter; the oracle's `deliverable` is narrower still). The compressing encoder is covered for sequences of names "
+                  "(`reference_compressor_sequence_read`), not for whole messages with record data; there is no theorem about a whole-message compressing encoder "
                   "(DNSMessage.packed does not compress).")
     technique = "Lean 4 proof (parse agreement between the cache-based decoder and the specification decoder) + differential correspondence through the real DNSLayer"
     rule = ("server-style messages from an independent compressing encoder: compressed names inside CNAME/NS/PTR/MX/SOA/SRV/"
